@@ -174,6 +174,15 @@ def generate(seed, mode):
                 ops.extend(pair)
                 ops.append({'op': 'probe', 'k': k})
                 continue
+            if shape == 'chain' and o.random() < 0.1:
+                # changes in two different registries above X, alternating, with a lookup from X after each: whatever tells X's
+                # caches about changes above must tell the two origins apart
+                x = o.randrange(nR)
+                for j in (0, 1, 0, 1)[:o.choice([2, 3, 4])]:
+                    ops.append({'op': 'reg', 'r': x, 'anc_of': x, 'anc_i': j + o.choice([0, 0, 1]), 'req': req(3, 64), 'p': o.randrange(nP),
+                                'n': o.randrange(3), 'v': o.randrange(len(vals)), 'k': o.getrandbits(30), 'fromkey': fromkey(), 'samepn': True})
+                    ops.append({'op': 'probe', 'k': o.getrandbits(30)})
+                continue
             if shape == 'specdyn' and o.random() < 0.2:
                 # lookup of the short key, lookup of the long key, then a change of what a *later* component of the long key
                 # extends, then the probe: the pairing (earlier lookup, later specification change) the property quantifies over
@@ -1061,6 +1070,11 @@ def execute(program, ctx, mode):
                 ctx.probe('specmut-' + name)
             if name == 'reg':
                 r = op['r'] % nR
+                if op.get('anc_of') is not None and alive[op['anc_of'] % nR]:
+                    above = ro_of(op['anc_of'] % nR)[1:]
+                    if above:
+                        r = above[op['anc_i'] % len(above)]
+                        ctx.probe('registration-in-an-ancestor-registry')
                 if not alive[r]:
                     continue
                 req = [SP[x % len(SP)] if x % (len(SP) + 1) != len(SP) else None for x in op['req']]
